@@ -68,8 +68,10 @@ def _merge_ledger(entries):
             led[k] = dict(e, kind=k[1], snippets=list(e.get("snippets", [])))
         else:
             m = led[k]
-            m["max_sites"] += e["max_sites"]
             m["snippets"] += e.get("snippets", [])
+            # the merged budget is the number of distinct reviewed expressions, not the sum (one expression can carry checks
+            # of two kinds; summing would leave slack that hides a new site)
+            m["max_sites"] = len(set(m["snippets"])) if m["snippets"] else m["max_sites"] + e["max_sites"]
             if e["class"] != m["class"]:
                 # undecided if any merged entry is undecided
                 if e["class"].startswith("not-decided") and not m["class"].startswith("not-decided"):
@@ -109,10 +111,10 @@ def residue_rule(scope, owner_filter=None, rule="RESIDUE"):
                 if pos != "-":
                     owner_file.setdefault(owner, pos.rsplit(":", 2)[0])
         file_led = defaultdict(int)
-        for e0 in ledger["entries"]:
+        for e0 in led.values():
             fl = e0.get("file")
             if fl:
-                file_led[(fl, family(e0["kind"]))] += e0["max_sites"]
+                file_led[(fl, e0["kind"])] += e0["max_sites"]
         file_now = defaultdict(int)
         for (owner, kind), sites in grp.items():
             if owner.startswith("(std)"):
